@@ -93,6 +93,7 @@ def real_history(args, scratch):
     ws.version = "2.0"
     ws.rules = {"wireserver": {"defaultAccess": "allow", "mode": "audit", "id": "w1"}, "imds": {"defaultAccess": "allow", "mode": "audit", "id": "i1"}}
     script = args["script"]
+    keydoc_steps = [0]
     events = []
     client_bytes = []
     if args.get("preexisting_dir"):
@@ -107,6 +108,10 @@ def real_history(args, scratch):
         # fault: changing the owner of the key folder fails (agent without CAP_CHOWN, root-squashed or FUSE-backed folder): the folder
         # must still be mode 0700 before the first key file appears in it
         trace_opts += ["-e", "inject=chown,fchown,fchownat,lchown:error=EPERM"]
+    elif trace_opts and args.get("chown_delay"):
+        # fault: changing the owner of the key folder takes 1.5 s (slow or remote file system): whatever the agent does meanwhile, no key
+        # file may appear in the folder before it has been restricted
+        trace_opts += ["-e", "inject=chown,fchown,fchownat,lchown:delay_enter=1500000"]
     agent = realagent.RealAgent(scratch, tag="a0", vdir=vdir, poll_s=1, strace=trace_opts, worker_threads=2)
     agents = [agent]
 
@@ -165,10 +170,14 @@ def real_history(args, scratch):
             elif step == "fault-keydoc":
                 # a malformed key response that nevertheless carries a secret the host issued ("malformed key responses" in the
                 # quantifier): the guest cannot use it, and must not spread it either
-                ws.fault("acquire", {"kind": "mangled-key-document", "how": r.choice(["wrong-type", "missing-member", "truncated", "trailing", "extra-member"])})
-                ws.fault("acquire", {"kind": "mangled-key-document", "how": r.choice(["non-hex-key", "odd-length-key", "status-201", "status-202", "status-206", "status-203"])})
+                # the variants rotate with the history number, so that one run of the check covers all of them
+                kd = args["shard"] + keydoc_steps[0]
+                keydoc_steps[0] += 1
+                ws.fault("acquire", {"kind": "mangled-key-document", "how": ["wrong-type", "missing-member", "truncated", "trailing", "extra-member"][kd % 5]})
+                ws.fault("acquire", {"kind": "mangled-key-document", "how": ["non-hex-key", "odd-length-key", "status-201", "status-202", "status-206", "status-203"][kd % 6]})
+                ws.fault("acquire", {"kind": "mangled-key-document", "how": ["odd-length-key", "non-hex-key"][kd % 2]})
                 ws.latched = None
-                wait(lambda: ws.latched is not None, 8)
+                wait(lambda: ws.latched is not None, 15)
                 latched_sync()
             elif step == "fault-attest":
                 ws.fault("attest", {"kind": "status", "code": r.choice([500, 403]), "body": "attest failed"})
@@ -404,7 +413,7 @@ def run(tier, rep):
                             "haystack = all files under the log/event/status/provision locations and the whole scratch root, stdout, stderr, the captured /dev/console, every byte returned to local clients "
                             "(proxied responses, /provision answers, refusals), telemetry bodies at the mock and upstream request bytes; only files inside the key directory may contain a needle. histories: real binary "
                             "(latch, traffic, /provision queries, status/acquire/attest faults, rotation, disable/enable, restart) and a shim-hosted pipeline with logger/reader/status task on short intervals. plus "
-                            "strace of start-up: chmod 0700 of the key directory precedes the first O_CREAT below it, also when every chown is made to fail with EPERM (strace fault injection). non-trivial = history with a latched key and a fault; distinct by script")
+                            "strace of start-up: chmod 0700 of the key directory precedes the first O_CREAT below it, also when every chown is made to fail with EPERM or to take 1.5 s (strace fault injection). non-trivial = history with a latched key and a fault; distinct by script")
     r = common.rng("c12", tier)
     n = 6 if tier == "quick" else 60
     args = []
@@ -412,9 +421,9 @@ def run(tier, rep):
         script = ["traffic", "provision"] + [r.choice(STEPS) for _ in range(3 if tier == "quick" else 6)] + ["traffic"]
         if not any(s.startswith("fault") for s in script):
             script.insert(2, "fault-attest")
-        if i % 2 == 1 and "fault-keydoc" not in script:
+        if "fault-keydoc" not in script:
             script[2:2] = ["fault-keydoc", "provision"]
-        args.append({"shard": i, "tier": tier, "script": script, "strace": i % 2 == 0, "preexisting_dir": i % 3 == 1, "chown_fault": i % 4 == 0})
+        args.append({"shard": i, "tier": tier, "script": script, "strace": i % 2 == 0, "preexisting_dir": i % 3 == 1, "chown_fault": i % 4 == 0, "chown_delay": i % 4 == 2})
     for res in sandbox.run_many("vf.props.c12", "real_history", args, workers=8, timeout=600 if tier == "quick" else 5400):
         rep.merge_worker(res)
     pargs = [{"shard": i, "tier": tier, "rounds": 8 if tier == "quick" else 40, "aborts": 4000 if tier == "quick" else 30000} for i in range(4 if tier == "quick" else 8)]
